@@ -1,5 +1,5 @@
 (* C04 — proofs about Model/Index.v against Spec/IndexSpec.v. *)
-From Apko Require Import Base.Prelude Base.Regex Generated.Regexes Generated.IndexConsts
+From Apko Require Import Base.Prelude Base.Regex Generated.Regexes Generated.IndexConsts Generated.IndexShapes
   Model.Index Spec.IndexSpec.
 Open Scope string_scope. Open Scope list_scope.
 
@@ -145,53 +145,109 @@ Section WithOracles.
       + eapply Lift; eauto.
   Qed.
 
+  (* ---- the verify loop ------------------------------------------------------- *)
+  Lemma verify_loop_some (ok : sigrec -> bool) : forall sigs s,
+    verify_loop ok sigs = Some s ->
+    In s sigs /\ ok s = true /\
+    exists before after, sigs = before ++ s :: after /\ forallb (fun x => negb (ok x)) before = true.
+  Proof.
+    induction sigs as [|x sigs IH]; simpl; intros s H; [discriminate|].
+    destruct (ok x) eqn:E.
+    - inversion H; subst. split; [left; reflexivity|]. split; [exact E|]. exists [], sigs. split; reflexivity.
+    - destruct (IH s H) as (Hin & Hok & before & after & -> & Hb). split; [right; exact Hin|]. split; [exact Hok|].
+      exists (x :: before), after. split; [reflexivity|]. simpl. rewrite E. exact Hb.
+  Qed.
+
+  Lemma verify_loop_none (ok : sigrec -> bool) : forall sigs,
+    verify_loop ok sigs = None <-> existsb ok sigs = false.
+  Proof.
+    induction sigs as [|x sigs IH]; simpl; [tauto|]. destruct (ok x); simpl; [split; discriminate | exact IH].
+  Qed.
+
+  Lemma fill_signature_keeps v i : i_pkgs (fill_signature v i) = i_pkgs i /\ i_desc (fill_signature v i) = i_desc i.
+  Proof. unfold fill_signature. destruct (i_sig i); split; reflexivity. Qed.
+
+  Lemma fill_pres_none r : fill_pres None r = r.
+  Proof. destruct r as [i| |]; try reflexivity. unfold fill_pres, fill_signature. destruct i as [p d [sg|]]; reflexivity. Qed.
+
+  Lemma fill_pres_ok v r idx : fill_pres v r = POk idx -> exists i0, r = POk i0 /\ idx = fill_signature v i0.
+  Proof. destruct r as [i| |]; simpl; intro H; try discriminate. inversion H. eauto. Qed.
+
   (* ---- parseRepositoryIndex with checking on --------------------------------- *)
   Lemma pri_checked_cases keys a :
     pri true keys a = PErr \/
-    exists m1 rest sigs, a = m1 :: rest /\ keys <> [] /\ existsb contains_slash keys = false /\
+    exists m1 rest sigs s, a = m1 :: rest /\ keys <> [] /\ existsb contains_slash keys = false /\
       sig_pass keys (m_entries m1) = Ok sigs /\
-      existsb (sig_verifies B D raw hash verify rest) sigs = true /\
-      pri true keys a = ifa rest.
+      verify_loop (sig_verifies B D raw hash verify rest) sigs = Some s /\
+      pri true keys a = fill_pres (Some (s_sig s)) (ifa rest).
   Proof.
     unfold parse_repository_index. destruct keys as [|k keys']; [left; reflexivity|].
     destruct (existsb contains_slash (k :: keys')) eqn:Sl; [left; reflexivity|].
     destruct a as [|m1 rest]; [left; reflexivity|].
     destruct (sig_pass (k :: keys') (m_entries m1)) as [sigs| | |] eqn:SP; try (left; reflexivity).
     destruct sigs as [|s0 sigs']; [left; reflexivity|].
-    destruct (existsb (sig_verifies B D raw hash verify rest) (s0 :: sigs')) eqn:V; [|left; reflexivity].
-    right. exists m1, rest, (s0 :: sigs'). repeat split; try assumption; discriminate.
+    destruct (verify_loop (sig_verifies B D raw hash verify rest) (s0 :: sigs')) as [s|] eqn:V; [|left; reflexivity].
+    right. exists m1, rest, (s0 :: sigs'), s. repeat split; try assumption; discriminate.
   Qed.
 
-  Lemma accepted_authentic keys m1 rest sigs :
+  Lemma accepted_authentic keys m1 rest sigs s :
     sig_pass keys (m_entries m1) = Ok sigs ->
-    existsb (sig_verifies B D raw hash verify rest) sigs = true ->
+    verify_loop (sig_verifies B D raw hash verify rest) sigs = Some s ->
     Authentic keys m1 rest.
   Proof.
-    intros SP V. apply existsb_exists in V. destruct V as (s & Hs & V).
+    intros SP V. apply verify_loop_some in V. destruct V as (Hs & V & _).
     destruct (sig_pass_sound keys _ _ SP s Hs) as (e & alg & He & Hn & Sup & Hk & Hb).
     exists e, alg, (s_alg s), (s_key s). unfold sig_verifies in V. rewrite Hb in V. auto.
   Qed.
 
+  (* accepted: authentic, and the index handed on is the parse of exactly the
+     remaining members, its Signature field filled in (when the signed part
+     carries no .SIGN. entry of its own) with the body of the verified entry *)
   Lemma accept_sound keys a idx :
     pri true keys a = POk idx ->
-    exists m1 rest, a = m1 :: rest /\ Authentic keys m1 rest /\ ifa rest = POk idx.
+    exists m1 rest, a = m1 :: rest /\ Authentic keys m1 rest /\
+      exists i0, ifa rest = POk i0 /\ i_pkgs idx = i_pkgs i0 /\ i_desc idx = i_desc i0.
   Proof.
-    intro H. destruct (pri_checked_cases keys a) as [E|(m1 & rest & sigs & -> & _ & _ & SP & V & E)]; [congruence|].
-    exists m1, rest. split; [reflexivity|]. split; [eapply accepted_authentic; eauto | congruence].
+    intro H. destruct (pri_checked_cases keys a) as [E|(m1 & rest & sigs & s & -> & _ & _ & SP & V & E)]; [congruence|].
+    exists m1, rest. split; [reflexivity|]. split; [eapply accepted_authentic; eauto|].
+    rewrite E in H. apply fill_pres_ok in H. destruct H as (i0 & I & ->). exists i0. split; [exact I|].
+    apply fill_signature_keeps.
+  Qed.
+
+  (* the Signature field of an accepted index: the signed part's own .SIGN. entry if
+     it has one, otherwise the body of an entry of the first member that verifies
+     for a configured key over the remaining bytes *)
+  Lemma accept_signature_field keys a idx :
+    pri true keys a = POk idx ->
+    exists m1 rest i0, a = m1 :: rest /\ ifa rest = POk i0 /\
+      match i_sig i0 with
+      | Some sg => i_sig idx = Some sg
+      | None => exists e alg a' key, i_sig idx = Some (e_body e) /\ In e (m_entries m1) /\
+                  e_name e = sig_entry_name alg key /\ supported alg = Some a' /\ In key keys /\
+                  verify key a' (hash a' (raw rest)) (e_body e) = true
+      end.
+  Proof.
+    intro H. destruct (pri_checked_cases keys a) as [E|(m1 & rest & sigs & s & -> & _ & _ & SP & V & E)]; [congruence|].
+    rewrite E in H. apply fill_pres_ok in H. destruct H as (i0 & I & ->). exists m1, rest, i0.
+    split; [reflexivity|]. split; [exact I|]. unfold fill_signature. destruct (i_sig i0) as [sg|] eqn:S.
+    - exact S.
+    - apply verify_loop_some in V. destruct V as (Hs & V & _).
+      destruct (sig_pass_sound keys _ _ SP s Hs) as (e & alg & He & Hn & Sup & Hk & Hb).
+      exists e, alg, (s_alg s), (s_key s). simpl. unfold sig_verifies in V. rewrite Hb in *. repeat split; assumption.
   Qed.
 
   Lemma reject_not_authentic keys m1 rest :
     ~ Authentic keys m1 rest -> pri true keys (m1 :: rest) = PErr.
   Proof.
-    intro NA. destruct (pri_checked_cases keys (m1 :: rest)) as [E|(m1' & rest' & sigs & E0 & _ & _ & SP & V & _)]; [exact E|].
+    intro NA. destruct (pri_checked_cases keys (m1 :: rest)) as [E|(m1' & rest' & sigs & s & E0 & _ & _ & SP & V & _)]; [exact E|].
     inversion E0; subst. exfalso. apply NA. eapply accepted_authentic; eauto.
   Qed.
 
   Lemma model_holds keys a idx :
     pri true keys a = POk idx -> Holds B D raw hash verify parse_text keys a (Some (i_pkgs idx)).
   Proof.
-    intros H pkgs E. inversion E; subst. destruct (accept_sound keys a idx H) as (m1 & rest & -> & A & I).
-    exists m1, rest. split; [reflexivity|]. split; [exact A|]. unfold signed_pkgs. rewrite I. reflexivity.
+    intros H pkgs E. inversion E; subst. destruct (accept_sound keys a idx H) as (m1 & rest & -> & A & i0 & I & Pk & _).
+    exists m1, rest. split; [reflexivity|]. split; [exact A|]. unfold signed_pkgs. rewrite I, Pk. reflexivity.
   Qed.
 
   Lemma reject_unsigned keys m1 rest :
@@ -223,7 +279,7 @@ Section WithOracles.
   Proof. unfold parse_repository_index. destruct keys; [reflexivity|]. destruct (existsb _ _); reflexivity. Qed.
 
   Lemma unchecked_is_plain_parse keys a : pri false keys a = ifa a.
-  Proof. reflexivity. Qed.
+  Proof. apply fill_pres_none. Qed.
 End WithOracles.
 
   (* every entry name the signature pass tolerates matches the generated regex *)
@@ -291,6 +347,10 @@ Proof.
   rewrite append_nil_r. reflexivity.
 Qed.
 
+(* the exemption test read from the source is the exact comparison *)
+Lemma exempt_test_spec r arch index : exempt_test r arch index = String.eqb (index_url r arch) index.
+Proof. reflexivity. Qed.
+
 Lemma should_check_iff ign listed index arch :
   should_check ign listed index arch = true <-> CheckRequired ign listed index arch.
 Proof.
@@ -298,11 +358,11 @@ Proof.
   - split; [discriminate | intros [H _]; discriminate].
   - rewrite negb_true_iff. split.
     + intro H. split; [reflexivity|]. intros r Hr E.
-      assert (existsb (fun r0 => String.eqb (index_url r0 arch) index) listed = true) as X.
-      { apply existsb_exists. exists r. split; [exact Hr|]. rewrite index_url_spec. apply String.eqb_eq; exact E. }
+      assert (existsb (fun r0 => exempt_test r0 arch index) listed = true) as X.
+      { apply existsb_exists. exists r. split; [exact Hr|]. rewrite exempt_test_spec, index_url_spec. apply String.eqb_eq; exact E. }
       congruence.
     + intros [_ H]. destruct (existsb _ listed) eqn:X; [|reflexivity].
-      apply existsb_exists in X. destruct X as (r & Hr & E). apply String.eqb_eq in E.
+      apply existsb_exists in X. destruct X as (r & Hr & E). rewrite exempt_test_spec in E. apply String.eqb_eq in E.
       rewrite index_url_spec in E. exfalso; exact (H r Hr E).
 Qed.
 
